@@ -100,9 +100,77 @@ def build_program(it, pj):
         none(),
         some(Agg('IoChannelInfo', None, [Sc('u32', io['input']), Sc('u32', io['output'])])) if io else none(),
         some(Sc('usize', pj['dsp_index'])) if pj.get('dsp_index') is not None else none(),
-        VecV([Opaque('TypeNodeId') for _ in range(pj.get('type_table_len', 0))]),
+        VecV([TypeRef(t) for t in pj['type_table']] if pj.get('type_table') is not None else [Opaque('TypeNodeId') for _ in range(pj.get('type_table_len', 0))]),
     ])
     return prog
+
+
+class TypeRef(object):
+    """a TypeNodeId of the program's type table: the interner lives in the compiler process, so the structure of the type (as
+    the real `TypeNodeId::to_type` / `word_size` report it) is dumped by mmdump and looked up here"""
+    __slots__ = ('js',)
+
+    def __init__(self, js):
+        self.js = js
+
+    def __repr__(self):
+        return 'TypeRef(%s)' % self.js.get('k')
+
+
+def _sym(name):
+    import zlib
+    return Agg('Symbol', None, [Sc('usize', zlib.crc32(name.encode()) & 0xffffff)])
+
+
+def type_value(it, js):
+    """types::Type value for a dumped type"""
+    k = js['k']
+    kids = [TypeRef(c) for c in js.get('c', [])]
+    if k == 'Primitive':
+        pe = it.layouts.find_enum('PType', js['p'])
+        return it.make_enum('Type', k, [Agg(it.enum_tag(pe), pe.variant_index(js['p']), [])], hint='types')
+    if k in ('Array', 'Ref', 'Code', 'Boxed'):
+        return it.make_enum('Type', k, [kids[0]], hint='types')
+    if k in ('Tuple', 'Union'):
+        return it.make_enum('Type', k, [VecV(kids)], hint='types')
+    if k == 'Record':
+        fs = [Agg('RecordTypeField', None, [_sym(n), t, Sc('bool', int(d))]) for n, t, d in zip(js['keys'], kids, js['defaults'])]
+        return it.make_enum('Type', k, [VecV(fs)], hint='types')
+    if k == 'Function':
+        return it.make_enum('Type', k, [kids[0], kids[1]], hint='types')
+    if k == 'UserSum':
+        vs = [Agg('tuple', None, [_sym(v['name']), some(TypeRef(v['payload'])) if v['payload'] is not None else none()]) for v in js['variants']]
+        return it.make_enum('Type', k, [_sym(js['name']), VecV(vs)], hint='types')
+    if k == 'TypeAlias':
+        return it.make_enum('Type', k, [_sym(js['name'])], hint='types')
+    if k in ('Any', 'Failure', 'Unknown'):
+        return it.make_enum('Type', k, [], hint='types')
+    raise Unsupported('type %s in the type table' % k)
+
+
+def install_type_hooks(it):
+    def deref(a):
+        while type(a) is Ref:
+            a = a.cont[a.key]
+        return a
+
+    def to_type(it_, args):
+        a = deref(args[0])
+        if isinstance(a, TypeRef):
+            return type_value(it_, a.js)
+        if type(a) is Opaque and a.what == 'TypeNodeId':
+            raise Unsupported('TypeNodeId::to_type on a type id that is not in the dumped type table (global interner)')
+        return NotImplemented
+
+    def word_size(it_, args):
+        a = deref(args[0])
+        if isinstance(a, TypeRef):
+            return Sc('u16', a.js['word_size'])
+        if type(a) is Opaque and a.what == 'TypeNodeId':
+            raise Unsupported('word_size on a type id that is not in the dumped type table (global interner)')
+        return NotImplemented       # SizedType::word_size of the state tree etc.: run the real body
+    it.hooks['to_type'] = to_type
+    it.hooks['word_size'] = word_size
 
 
 class HostFn(object):
@@ -125,6 +193,7 @@ class VmRun(object):
         self.now = now_ref if now_ref is not None else [Sc('u64', 0)]
         self.samplerate = samplerate
         self.ext_hooks = ext_hooks or {}
+        install_type_hooks(it)
         self.prog = build_program(it, pj)
         self.machine = self.build_machine(self.prog)
         self.mref = Ref([self.machine], 0)
